@@ -12,6 +12,6 @@ else
   git -C "$WT" revert --no-commit "$what" >/dev/null 2>&1 || { echo "revert does not apply"; git -C /repo worktree remove --force "$WT"; exit 2; }
 fi
 for s in "${@:-1}"; do
-  VERIF_REPO_SRC="$WT/src" "$HERE/check" "$prop" --tier "${TIER:-quick}" --seed "$s" --no-evidence 2>&1 | grep -E "^\[|class=" | cut -c1-220 | head -4
+  VERIF_REPO_SRC="$WT/src" "$HERE/check" "$prop" --tier "${TIER:-quick}" --seed "$s" --no-evidence ${BUDGET:+--budget $BUDGET} 2>&1 | grep -E "^\[|class=" | cut -c1-220 | head -4
 done
 git -C /repo worktree remove --force "$WT" >/dev/null 2>&1; rm -rf "$WT"; git -C /repo worktree prune
